@@ -151,3 +151,37 @@ pub(crate) fn f32_bound(min: f32, val: f32, max: f32) -> f32 {
         val
     }
 }
+
+/// Verification hooks. Compiled only with `--cfg resvg_verif`; never part of a normal build.
+#[cfg(resvg_verif)]
+pub mod verif_hooks {
+    use super::*;
+
+    /// Debug dump of the intermediate `svgtree::Document` (elements, resolved attributes, text)
+    /// together with its node count.
+    pub fn svgtree_dump(text: &str, opt: &Options) -> Result<(String, usize), Error> {
+        let xml_opt = roxmltree::ParsingOptions {
+            allow_dtd: true,
+            ..Default::default()
+        };
+        let xml =
+            roxmltree::Document::parse_with_options(text, xml_opt).map_err(Error::ParsingFailed)?;
+        let doc = svgtree::Document::parse_tree(&xml, opt.style_sheet.as_deref())?;
+        let n = doc.descendants().count();
+        Ok((format!("{:?}", doc), n))
+    }
+
+    /// `ViewBox::to_transform` on plain numbers.
+    pub fn view_box_to_transform(
+        rect: crate::NonZeroRect,
+        aspect: svgtypes::AspectRatio,
+        size: crate::Size,
+    ) -> crate::Transform {
+        crate::tree::ViewBox { rect, aspect }.to_transform(size)
+    }
+
+    /// `aligned_pos`.
+    pub fn aligned_pos(align: svgtypes::Align, x: f32, y: f32, w: f32, h: f32) -> (f32, f32) {
+        crate::tree::aligned_pos(align, x, y, w, h)
+    }
+}
